@@ -39,6 +39,9 @@ type cfgCase struct {
 	Argv    []string `json:"argv"` // extra arguments
 	Kind    string   `json:"kind"`
 	Feature string   `json:"feature"`
+	// Alt, for the split-overloads family: one file per class again, with the
+	// overloads of every method in the order the split files' names induce
+	Alt *CfgSpec `json:"alt,omitempty"`
 }
 
 func judgeCfg(c *CheckCtx, rn Runner, cc *cfgCase, sigPrefix string) *Violation {
@@ -58,7 +61,24 @@ func judgeCfg(c *CheckCtx, rn Runner, cc *cfgCase, sigPrefix string) *Violation 
 	}
 	sig := sigPrefix + ":" + cc.Kind + ":" + cc.Feature + ":" + diffTemplate(parseOut(o1), parseOut(o2))
 	if cc.Feature == "split-overloads-across-files" {
+		// listed finding: the order of one method's declarations follows the load
+		// order of the files. A difference is that finding only if the split
+		// configuration behaves exactly like ONE file with the declarations in
+		// the induced order; anything else is a new violation.
 		sig = sigPrefix + ":" + cc.Kind + ":" + cc.Feature
+		if cc.Alt != nil {
+			o3, ok3 := relRun(c, rn, &Exec{Files: map[string]string{targetFile: cc.Source}, Argv: argv, Config: cc.Alt.build()})
+			if !ok3 {
+				c.Event("skipped_crash_or_hang", 1)
+				return nil
+			}
+			if o3 != o2 {
+				c.Event("split_overloads_not_explained_by_order", 1)
+				sig += ":not-explained-by-declaration-order:" + diffTemplate(parseOut(o3), parseOut(o2))
+			} else {
+				c.Event("split_overloads_explained_by_order", 1)
+			}
+		}
 	}
 	return &Violation{Sig: sig, Kind: "cfg", Case: mustJSON(cc),
 		What:     fmt.Sprintf("two equivalent configurations (%s; %s) give different output for the same program (argv %v)", cc.Kind, cc.Feature, cc.Argv),
@@ -130,6 +150,7 @@ func init() {
 			classes := genClasses(r, 2+r.Intn(4), "")
 			one := map[string]string{}
 			split := map[string]string{}
+			alt := map[string]string{}
 			feat := "split"
 			for _, cl := range classes {
 				one["zz_"+strings.ToLower(cl.Name)+".json"] = cl.toJSON(Notation{}, r, nil)
@@ -156,9 +177,11 @@ func init() {
 				if len(cl.Extends) > 0 && r.Bool() {
 					extendsPart = r.Intn(parts)
 				}
+				partName := make([]string, parts)
 				for pi := 0; pi < parts; pi++ {
 					pi := pi
 					name := fmt.Sprintf("%c%c_%s_%d.json", 'a'+byte(r.Intn(26)), 'a'+byte(r.Intn(26)), strings.ToLower(cl.Name), pi)
+					partName[pi] = name
 					part := cl
 					if extendsPart >= 0 && pi != extendsPart {
 						cp := *cl
@@ -170,13 +193,30 @@ func init() {
 				if len(cl.Extends) > 0 && feat == "split" {
 					feat = "split+extends"
 				}
+				// the same class in one file, methods in the order in which the parts
+				// are loaded (files load in the lexical order of their names)
+				idx := make([]int, len(cl.Methods))
+				for i := range idx {
+					idx[i] = i
+				}
+				sort.SliceStable(idx, func(a, b int) bool { return partName[assign[idx[a]]] < partName[assign[idx[b]]] })
+				cp := *cl
+				cp.Methods = nil
+				for _, i := range idx {
+					cp.Methods = append(cp.Methods, cl.Methods[i])
+				}
+				alt["zz_"+strings.ToLower(cl.Name)+".json"] = cp.toJSON(Notation{}, r, nil)
+			}
+			var altSpec *CfgSpec
+			if feat == "split-overloads-across-files" {
+				altSpec = &CfgSpec{Extra: alt}
 			}
 			src := callProgram(r, classes)
 			for _, argv := range [][]string{{}, {"-i"}, {"--llm-define", "--class=" + classes[0].Name}} {
-				jobs = append(jobs, &cfgCase{A: CfgSpec{Extra: one}, BSpec: CfgSpec{Extra: split}, Source: src, Argv: argv, Kind: "split-class", Feature: feat})
+				jobs = append(jobs, &cfgCase{A: CfgSpec{Extra: one}, BSpec: CfgSpec{Extra: split}, Source: src, Argv: argv, Kind: "split-class", Feature: feat, Alt: altSpec})
 			}
 			sg := src + "o0.\n"
-			jobs = append(jobs, &cfgCase{A: CfgSpec{Extra: one}, BSpec: CfgSpec{Extra: split}, Source: sg, Argv: lastRowArgs(sg), Kind: "split-class", Feature: feat})
+			jobs = append(jobs, &cfgCase{A: CfgSpec{Extra: one}, BSpec: CfgSpec{Extra: split}, Source: sg, Argv: lastRowArgs(sg), Kind: "split-class", Feature: feat, Alt: altSpec})
 			// also: the same one-file-per-class files under other names (load order of parent/child)
 			ren := map[string]string{}
 			for n, body := range one {
